@@ -125,6 +125,40 @@ CHURN_PROBES = [
                                  "var rg = r..(r + 2); var n = 0; for x in rg { n = n + x; } if n != r + r + 1 { bad = bad + 1; } pad(r % 6); r = r + 1; } print(bad);"),
 ]
 
+# volume under the PACED schedule (collections only when the byte threshold is crossed - the schedule optimised builds really run): many
+# records of every kind are built and kept, through every kind of holder (a list, and a mutable container reachable only through an OLD
+# immutable or old mutable object), so that allocations cross the threshold many times with the newest object in every state of
+# construction; then every record is verified.  A collection that runs at a point where collect-at-every-allocation never puts one (after
+# linking and before rooting, every n-th cycle only, ...) damages a few records out of thousands.
+def paced_volume_programs(n=6000):
+    kinds = {
+        "vec": ("[i, i + 1]", "r[0] == i && r[1] == i + 1"),
+        "tuple": ("(i, [i])", "r[0] == i && r[1][0] == i"),
+        "map": ("{\"k\": i, i: [i]}", "r.get(\"k\") == i && r.get(i)[0] == i"),
+        "instance": ("mk(i)", "r.v[0] == i && r.get() == i"),
+        "closure": ("clo(i)", "r() == i"),
+        "string": ("\"s${i}\" + \"x\"", "r == \"s${i}x\""),
+        "bound": ("mk(i).get", "r() == i"),
+        "nested": ("[[i], ([i],)]", "r[0][0] == i && r[1][0][0] == i"),
+    }
+    holders = {
+        "list": ("var keep = [];", "keep.push(e);", "keep[i]"),
+        "old-tuple": ("var keep = (\"journal\", []);", "keep[1].push(e);", "keep[1][i]"),
+        "old-instance-field": ("var keep = mk(0); keep.v = [];", "keep.v.push(e);", "keep.v[i]"),
+        "old-closure": ("var store = []; var adder = |x| { store.push(x); return store; }; var keep = adder;", "keep(e);", "store[i]"),
+        "old-map-value": ("var keep = {\"all\": []};", "keep.get(\"all\").push(e);", "keep.get(\"all\")[i]"),
+    }
+    defs = ("#[constructor(new)] class Rec { fn get(self) { return self.v[0]; } } fn mk(i) { var o = Rec.new(); o.v = [i]; return o; } "
+            "fn clo(i) { var c = [i]; return || c[0]; } ")
+    out = []
+    for kn, (make, check) in kinds.items():
+        for hn, (init, put, at) in holders.items():
+            src = (defs + init + " var i = 0; while i < %d { var e = %s; %s i = i + 1; } var bad = 0; i = 0; while i < %d { var r = %s; if !(%s) { bad = bad + 1; } i = i + 1; } print(bad);"
+                   % (n, make, put, n, at, check))
+            out.append(("paced.%s.%s" % (kn, hn), src))
+    return out
+
+
 # every built-in the interpreter itself keeps using - the error classes it raises, StopIter and the iterator classes of core.yl, the classes
 # of built-in values - re-bound by the program (so that only the interpreter still refers to the object), a collection, MANY new classes
 # (whatever was freed gets reused), and then operations that make the interpreter use the object again
